@@ -50,7 +50,46 @@ RadiiAgree(A, s1, s2, tol) ==
 
 IsIdentity(A) == A = <<SA, 0, 0, SA, 0, 0>>
 
+(***************************************************************************)
+(* The fine regime (c.fine = 1): coordinates up to 2000 user units given x 10^4, *)
+(* tolerance 0.001, the linear part of A x 10^8 and its translation x 10^4 (E). *)
+(* The products exceed TLC's 32-bit integers, so they are formed from base-10^4 *)
+(* halves: x * a = Q * SF + R exactly, a value is the pair <<Q, R>> = Q + R/SF.  *)
+(***************************************************************************)
+SF == 100000000
+B4 == 10000
+MulQ(x, a) ==   \* x in 0..2*10^7, a in 0..4*10^8
+  LET x1 == x \div B4  x0 == x % B4  a1 == a \div B4  a0 == a % B4
+      M == x1 * a0 + x0 * a1
+      low == (M % B4) * B4 + x0 * a0
+  IN <<x1 * a1 + M \div B4 + low \div SF, low % SF>>
+NegQ(p) == IF p[2] = 0 THEN <<0 - p[1], 0>> ELSE <<0 - p[1] - 1, SF - p[2]>>
+SMul(x, a) == LET p == MulQ(Abs(x), Abs(a)) IN IF (x < 0) # (a < 0) THEN NegQ(p) ELSE p
+AddQ(p, q) == LET r == p[2] + q[2] IN <<p[1] + q[1] + r \div SF, r % SF>>
+(* | p - w | <= T *)
+Within(p, w, T) == p[1] - w >= 0 - T /\ (p[1] - w < T \/ (p[1] - w = T /\ p[2] = 0))
+InRange(A, s) == /\ \A k \in 1..4 : Abs(A[k]) <= 4 * SF
+                 /\ Abs(s.m[1]) <= 20000000 /\ Abs(s.m[2]) <= 20000000
+                 /\ \A i \in 1..Len(s.segs) : \A k \in 2..Len(s.segs[i]) : Abs(s.segs[i][k]) <= 20000000
+CloseVecF(A, v, w, T) == /\ Within(AddQ(SMul(v[1], A[1]), SMul(v[2], A[3])), w[1], T)
+                         /\ Within(AddQ(SMul(v[1], A[2]), SMul(v[2], A[4])), w[2], T)
+MapsOntoF(A, E, s1, s2, T) ==
+  /\ Len(s1.segs) = Len(s2.segs)
+  /\ CloseVecF(A, s1.m, <<s2.m[1] - E[1], s2.m[2] - E[2]>>, T)
+  /\ \A i \in 1..Len(s1.segs) :
+       /\ s1.segs[i][1] = s2.segs[i][1]
+       /\ Len(s1.segs[i]) = Len(s2.segs[i])
+       /\ \A k \in 1..Len(Vecs(s1.segs[i])) : CloseVecF(A, Vecs(s1.segs[i])[k], Vecs(s2.segs[i])[k], T)
+
+JudgeFine(c) ==
+  IF c.k = "exc" THEN "ok:exception:" \o c.t
+  ELSE IF c.A = <<>> THEN (IF c.expect = "found" THEN "BAD:exact-translation-not-found" ELSE "ok:none")
+  ELSE IF ~InRange(c.A, c.s1) THEN "skip:out-of-range"
+  ELSE IF ~MapsOntoF(c.A, c.E, c.s1, c.s2, c.tol + 2) THEN "BAD:reported-transform-does-not-map-s1-onto-s2"
+  ELSE "ok:sound"
+
 Judge(c) ==
+  IF c.fine = 1 THEN JudgeFine(c) ELSE
   IF c.k = "exc" THEN "ok:exception:" \o c.t
   ELSE IF c.A = <<>>
        THEN (IF c.expect = "found" THEN "BAD:exact-translation-not-found"
